@@ -165,4 +165,18 @@ CtorDictOK(sig, sh, d) ==
           ELSE IF CInSeq(CFNames[j], sh.kws) THEN DictLookup(d, CFNames[j]) = IntC(30 + j)
           ELSE DictLookup(d, CFNames[j]) \in {Absent, IntC(20 + j)}
 
+---------------------------------------------------------------------------
+(* Comprehension lowering as a specification (used for C04's expected lambda; C06 judges *)
+(* the real pass relationally):  [elt for x in it if c1 if c2]                           *)
+(*    ->  it.Where(lambda x: c1).Where(lambda x: c2).Select(lambda x: elt)               *)
+RECURSIVE WhereChain(_, _, _, _)
+WhereChain(src, x, ifs, i) ==
+    IF i > Len(ifs) THEN src ELSE WhereChain(Meth(src, "Where", <<Lam1(x, ifs[i])>>), x, ifs, i + 1)
+RECURSIVE LowerComp(_)
+LowerComp(t) ==
+    LET u == [t EXCEPT !.a = [i \in 1..Len(t.a) |-> LowerComp(t.a[i])]] IN
+    IF u.k = "comp"
+    THEN Meth(WhereChain(u.a[2], u.p[1], SubSeq(u.a, 3, Len(u.a)), 1), "Select", <<Lam1(u.p[1], u.a[1])>>)
+    ELSE u
+
 =============================================================================
